@@ -7,7 +7,8 @@ RULE = ("seeded sequences of 4-30 tree-building operations (make root / node, ad
         "path look-ups) over forests of distinctly named nodes, never grafting a node onto its own descendant; after EVERY "
         "operation the whole forest is snapshotted (per node: root, treepath, children, metadata identity) and compared with the "
         "Lean heap model, and the well-formedness predicate is evaluated directly; non-trivial = sequence moving a branch with "
-        "descendants; distinct by recipe hash")
+        "descendants; node names derived from other nodes' names (proper prefixes), nodes of every built-in class incl. EMPTY "
+        "PointLists (falsy objects), option strings and names rebuilt at run time; distinct by recipe hash")
 OPTS = [True, False, "copy", "overwrite", "copyover"]
 
 
